@@ -52,6 +52,7 @@ func pseudo(src, dst netip.Addr, proto uint8, l4len int) uint32 {
 // IP is a decoded IPv4/IPv6 header.
 type IP struct {
 	V6      bool
+	HBH     bool // v6: a hop-by-hop options header follows the fixed header
 	Src     netip.Addr
 	Dst     netip.Addr
 	Proto   uint8 // v6: next header of the fixed header
@@ -108,7 +109,16 @@ func ParseIP(b []byte) (IP, []byte, error) {
 		if h.TotLen <= len(b) {
 			end = h.TotLen
 		}
-		return h, b[40:end], nil
+		pl := b[40:end]
+		// a hop-by-hop options header is part of the IPv6 header as far as the transport is concerned
+		if h.Proto == 0 && len(pl) >= 8 && (int(pl[1])+1)*8 <= len(pl) {
+			n := (int(pl[1]) + 1) * 8
+			h.Proto = pl[0]
+			h.HdrLen = 40 + n
+			h.HBH = true
+			pl = pl[n:]
+		}
+		return h, pl, nil
 	}
 	return IP{}, nil, fmt.Errorf("bad version %d", b[0]>>4)
 }
